@@ -107,7 +107,8 @@ def ob_a2(kind: int, cat: int, fails: bool, text: str) -> bool:
 
 # ------------------------------------------------------------------ C18.b real parser corpus
 EXTRA = ['4c', '8.dd#L', '2r', '4c 4e', '16qqE-J', '=1', '==', '=2||', '=:|!|:', '=-', '.', '*', 'la', 'Ky-ri-e', 'f', 'pp', 'C7', 'I6/4', '1', '1-2',
-         'zig zag', '4zz', 'c4', '[[[', 'é', '!fc', '12', '%', 'a·b', '\\', 'x' * 20, ' =||']
+         'zig zag', '4zz', 'c4', '[[[', 'é', '!fc', '12', '%', 'a·b', '\\', 'x' * 20, ' =||',
+         'r[', '4rL', 'rs', '4rt', '-rym', '*xywh-1:1,,3,4', '*xywh-1:1,2,3', '*xywh-1', 'G/B', 'Am', '4c 4', 'r', 'rr', ']', '=||x']
 
 
 @native
@@ -284,7 +285,41 @@ def _e_body(kind, lead):
     return True
 
 
+# ------------------------------------------------------------------ C18.f histories on one importer object per spine type
+H_POOL = ('r[', 'rL', '4rt', 'C', 'G', 'Am', '4e', 'G/B', '=1', '.', '4c 4', '*clefG2', 'la', '[[[')
+
+
+def ob_f(kind: int, h0: int, h1: int, h2: int) -> bool:
+    n = len(H_POOL)
+    assume(0 <= kind < len(KINDS) and 0 <= h0 < n and 0 <= h1 < n and 0 <= h2 < n)
+    return _f_body(choose(kind, len(KINDS)), [choose(h0, n), choose(h1, n), choose(h2, n)])
+
+
+@native
+def _f_body(kind, hist):
+    header = KINDS[kind]
+    imp = kp.createImporter(header)
+
+    def outcome(importer, text):
+        try:
+            t = importer.import_token(text)
+            return ('ok', type(t).__name__, t.category.name, t.encoding, t.export())
+        except Exception as e:
+            return ('raises', type(e).__name__)
+    for step, i in enumerate(hist):
+        text = H_POOL[i]
+        got = outcome(imp, text)
+        exp = outcome(kp.createImporter(header), text)
+        check(got[0] == 'ok', f'{header}: import_token({text!r}) after {[H_POOL[j] for j in hist[:step]]} raised {got}')
+        check(got == exp, f'{header}: history {[H_POOL[j] for j in hist[:step + 1]]}: {text!r} -> {got}, on a fresh importer {exp}')
+    return True
+
+
 OBLIGATIONS = [
+    Ob(id='C18.f', fn=ob_f, title='histories of three cells on ONE importer object per spine type: every outcome as on a fresh importer, never an exception',
+       shard_of=lambda kind, h0, h1, h2: h0, shards={'quick': 14, 'thorough': 14}, budget_s={'quick': 150, 'thorough': 900},
+       witnesses=[{'kind': 3, 'h0': 0, 'h1': 3, 'h2': 7}], min_confirmed=5000, enumerated='spine type (7), three cells from a 14-cell pool',
+       bounds={'quick': '7 x 14^3 histories', 'thorough': 'same'}),
     Ob(id='C18.d', fn=ob_d, title='documents: every cell of a non-kern spine (blank-only, padded, odd) becomes exactly one verbatim token',
        shard_of=lambda kind, c1, c2, two: kind, shards={'quick': 7, 'thorough': 7}, budget_s={'quick': 120, 'thorough': 600},
        witnesses=[{'kind': 0, 'c1': 0, 'c2': 5, 'two': False}], min_confirmed=300, enumerated='spine type, two cells from 8 odd texts, one / two columns',
